@@ -137,6 +137,17 @@ func Mkdir(name string, perm FileMode) error    { return simos.Mkdir(name) }
 func MkdirAll(path string, perm FileMode) error { return simos.Mkdir(path) }
 func Chmod(name string, mode FileMode) error    { return nil }
 func TempDir() string                           { return "." }
+func Chown(name string, uid, gid int) error     { return nil }
+func Getpid() int                               { return 4242 }
+func Getppid() int                              { return 4241 }
+func Getuid() int                               { return 1000 }
+func Geteuid() int                              { return 1000 }
+func Getwd() (string, error)                    { return "/work", nil }
+func Hostname() (string, error)                 { return "simhost", nil }
+func Environ() []string                         { return nil }
+func Readlink(name string) (string, error) {
+	return "", &PathError{Op: "readlink", Path: name, Err: fs.ErrInvalid}
+}
 
 var tempSeq int
 
